@@ -81,14 +81,7 @@ func VerifC09_Getters() {
 	}
 	cl := &zzC09Client{}
 	tr := &zzC09Tracker{}
-	cache := &c{
-		ctx:       context.Background(),
-		client:    cl,
-		tracker:   tr,
-		config:    &config.Config{},
-		dynconfig: dyn,
-		sslCerts:  &SSL{c: &config.Config{}},
-	}
+	cache := createCacheFacade(context.Background(), cl, &config.Config{}, tr, CreateSSLCerts(&config.Config{}), dyn, nil)
 	ref := zzC09Refs[nd.Choice("ref", len(zzC09Refs))]
 	getter := nd.Choice("getter", 4)
 	var own bool
